@@ -1,13 +1,13 @@
 package main
 
 import (
-	"net/http/httptest"
 	"bytes"
 	"context"
 	"crypto/rand"
 	"fmt"
 	mrand "math/rand/v2"
 	"net/http"
+	"net/http/httptest"
 	"os"
 	"strings"
 
